@@ -176,14 +176,17 @@ impl WalRecuperator {
 
         // Determine if it's a table or index and execute the inverse
         if let Ok(create_table_instr) = CreateTableInstr::from_bytes(redo_bytes) {
-            let drop_instr = create_table_instr.inverse(object_id);
+            // The unfinished transaction's table is only there if a checkpoint wrote it.
+            let mut drop_instr = create_table_instr.inverse(object_id);
+            drop_instr.if_exists = true;
             let instr = DdlInstruction::DropTable(drop_instr);
             self.ddl_executor.execute_instruction(&instr)?;
             return Ok(());
         }
 
         if let Ok(create_index_instr) = CreateIndexInstr::from_bytes(redo_bytes) {
-            let drop_instr = create_index_instr.inverse(object_id);
+            let mut drop_instr = create_index_instr.inverse(object_id);
+            drop_instr.if_exists = true;
             let instr = DdlInstruction::DropIndex(drop_instr);
             self.ddl_executor.execute_instruction(&instr)?;
         }
